@@ -199,6 +199,38 @@ def run(c):
                     % (len(inherited), nab),
                     {"broken": whyA.replace("invariant ", ""), "scenario": "aborted-before-accept"},
                     {"steps": asteps[:6], "inherited": inherited[:3]})
+    # burst reuse: an attributed connection is reset and a direct connection from the same source port follows at once,
+    # so both may sit in the accept queue together; the second must still be refused.  Timing dependent by nature:
+    # reported only if it shows again in each of three repetitions.
+    def burst(tag, n):
+        st, meta = [], []
+        for i in range(n):
+            a, b = "%sa%d" % (tag, i), "%sb%d" % (tag, i)
+            st += [{"op": "connect", "conn": a, "attr": {k2: IDENT["rootws"][k2] for k2 in ("uid", "admin", "dip", "dport")}},
+                   {"op": "close", "conn": a},
+                   {"op": "connect", "conn": b, "port_of": a, "attr": None},
+                   {"op": "request", "conn": b, "id": b + "_r", "method": "GET", "target": "/burst/%d" % i, "headers": [["Host", "h"]]},
+                   {"op": "close", "conn": b}]
+            meta += [{"e": "conn", "conn": b, "attributed": False, "elevated": False, "dest": "none"},
+                     {"e": "req", "conn": b, "id": b + "_r"}]
+        ev_, d_, _ = rig.run_rig({"steps": st, "drain_ms": 300}, "c07_burst", timeout=600)
+        failed_ = {e["conn"] for e in ev_ if e["e"] == "ConnectError"}
+        rows_ = rows_from(ev_, [m for m in meta if m["conn"] not in failed_])
+        inherited = [r for r in rows_ if r["e"] == "req" and (r["relayed"] or r["status"] != 421)]
+        return rows_, inherited
+    nburst = 150 if not thorough else 600
+    brows, binh = burst("u", nburst)
+    c.extra["burst_reuses"] = nburst
+    c.extra["burst_inherited_first_run"] = len(binh)
+    if binh:
+        again = [len(burst("v%d" % k, nburst)[1]) for k in range(3)]
+        c.extra["burst_inherited_repetitions"] = again
+        if all(x > 0 for x in again):
+            okB, whyB, _ = validate_trace(c, "SingleUseTrace", "SingleUseTrace.cfg", brows, "c07_burst", count=1, timeout=300)
+            c.violation("a direct connection queued right behind a reset attributed connection from the same source port "
+                        "inherits its identity (%d of %d bursts; repetitions %s)" % (len(binh), nburst, again),
+                        {"broken": (whyB or "P_C07_UnattributedRefused").replace("invariant ", ""), "scenario": "burst-reuse"},
+                        {"inherited": binh[:3]})
     # validate in chunks of whole histories (counterexamples of trace validation are as long as the trace)
     chunks, cur, last_h = [], [], None
     for r in allrows:
